@@ -15,13 +15,14 @@ def main(tier, replay=None):
         dict(scn="c16", name="A-startup-scan-vs-injector", opts=["scenario=A", "msgs=l1"] + common, bounds="%d,0,0,1" % (P + 1), total=P + 2, deadline=900 if q else 3600, qcap=0 if q else 8000000),
         dict(scn="c16", name="B-two-injectors", opts=["scenario=B", "msgs=l1+r1"] + common, bounds="%d,0,0,1" % (P if q else P - 1), total=(P if q else P - 1) + 1, deadline=900 if q else 3600, qcap=0 if q else 8000000),
         dict(scn="c16", name="C-scan-with-older-entries", opts=["scenario=C", "msgs=l1"] + common, bounds="%d,0,0,1" % P, total=P + 1, deadline=900 if q else 3600, qcap=0 if q else 8000000),
+        dict(scn="c16", name="D-injector-vs-HUP-reread", opts=["scenario=D", "msgs=l1"] + common, bounds="%d,0,0,1" % (P + 1), total=P + 2, deadline=900 if q else 3600, qcap=0 if q else 8000000),
         # timeout rules on quiescent states of delivery histories (C03/C15 histories with the C16 monitors)
         dict(scn="daemon", name="timeouts-deferred-remote", opts=["monitors=C16", "msgs=r1", "verdicts=KZ", "reorder=1"], bounds="0,0,0,%d" % (2 if q else 3), total=3),
         dict(scn="daemon", name="timeouts-deferred-mixed", opts=["monitors=C16", "msgs=l1r1", "verdicts=KZ", "reorder=1"], bounds="0,0,0,%d" % (2 if q else 3), total=3),
         dict(scn="daemon", name="term-with-held-delivery-and-injection", opts=["monitors=C16", "msgs=l1+r1b", "inject=event", "verdicts=KZ", "reorder=1"], bounds="0,0,0,%d" % (2 if q else 3), total=3),
     ]
     run_families(res, "C16", tier, fams)
-    res.rule = ("A/B/C: every interleaving, at the granularity of the trigger/todo system calls, of the injector's {link todo, open/write/close "
+    res.rule = ("A/B/C/D (D: a HUP reaches the idle daemon while an injector runs): every interleaving, at the granularity of the trigger/todo system calls, of the injector's {link todo, open/write/close "
                 "trigger} with the daemon's {select, close+reopen trigger, opendir/readdir/closedir todo} within the preemption bound (plus both "
                 "POSIX readdir behaviours), real binaries, clock frozen so the 25-minute rescan cannot hide a lost trigger; oracle at every "
                 "quiescent point: no committed todo entry is left unnoticed; fairness: an identical block of calls repeated around select() "
